@@ -461,6 +461,10 @@ func (p *Prog) generateOne(fn *ssa.Function, sp *spec.FuncSpec, splits []splitVa
 			if c.Label != "" {
 				kind += ":" + c.Label
 			}
+			if sp.RefineExcept[c.Label] {
+				props = []string{"ASSUMED"} // declared unproved: never claimed, listed as an assumption
+				vc.addAssumed("unproved clause " + r.fs.Name + ":" + c.Label + " of " + fn.Name())
+			}
 			vc.oblige(kind, props, exitReach, t, c.Src, fmt.Sprintf("%s:%d", relFile(c.File), c.Line))
 		}
 	}
